@@ -48,3 +48,12 @@ prop("C10",
      level_note="Trusted: Lean kernel; extractor (seven source facts); harness diff; wall clock handled by guard bands, so a boundary-only operator change is caught by the regenerated-fact obligation, not by a run (reported with no-failing-input-found). time.Time.Before/Sub modelled on int64 nanoseconds.",
      rule="exhaustive: 3 tuples x (timestamp offset in {-10 s,-5 s,+2 s}) x (expiry in {0,3 s,7 s}) x limit 0..3 (quick: one third of the grid; thorough: all 2916); seeded random sequences (<= 25 ops over 6 tuples, offsets -1 h..+1 min, expiries incl. non-positive, limits 0..5). Non-trivial = distinct cases with at least two operations.",
      assumptions=["Store.Gc reads time.Now() itself; the harness cannot inject a clock, so boundary instants (now - time == expiry) are covered by the extracted operators only"])
+
+prop("C12",
+     gens=["ExportLocks"],
+     level="proof",
+     level_text="Proof: the lock/emitter skeleton of every exporter loop (Collect, writeSocketMetrics, HandleVarz, HandleGraphite) is regenerated from the Go AST on every run; a syntactic check `safe` is proved sound against an executable semantics of skeletons (safe_sound: for every number of label sets and every fault plan - any subset of branches taken - a finished run ends with the read lock released, no emitter goroutine blocked on its channel, no unlock of an unheld lock), and `safe` is decided by the kernel on the four regenerated skeletons (skeletons_safe), giving export_releases. Tie: regeneration (translator) plus fault enumeration on the real exporters: every label-set position made unrepresentable (non-UTF-8 value, bad metric name, duplicate label name), a failing io.Writer at every write, request cancellation after every write, observing TryLock on every metric and a census of goroutines inside EmitLabelSets; the model's single-fault exploration must agree with the implementation per (exporter, store shape).",
+     level_note="Trusted: Lean kernel; the go/ast skeleton extractor (which statements count as lock, unlock, spawn, receive loop, drain, return; `defer m.RUnlock()` is desugared; unknown constructs are shape errors); the harness's TryLock/goroutine census. The semantics abstracts goroutines and the unbuffered channel to a pending-count; Go's scheduler and sync.RWMutex are trusted. JSON export takes no per-metric lock in a loop and is outside this model.",
+     rule="every (exporter in prom/push/varz/graphite) x (0..3 metrics) x (0..4 label sets) (thorough 0..4 x 0..6); per case every fault position: non-UTF-8 label value, failing write, cancellation at each label set, bad metric name and duplicate label name per metric, plus the fault-free run. Non-trivial = cases with at least one metric and one label set.",
+     timeout={"quick": 600, "thorough": 3000},
+     assumptions=["an emitter goroutine that still has label sets to send when the closure returns is blocked forever (unbuffered channel, no other receiver)"])
